@@ -1291,7 +1291,12 @@ impl LSMIterator for TransactionRangeIterator<'_> {
 			self.direction = MergeDirection::Forward;
 			self.is_key_equal = false;
 
-			if !self.snapshot_iter.valid() || !self.ws_valid() {
+			if !self.snapshot_iter.valid() {
+				// The snapshot side ran off its low end: all it holds lies ahead of
+				// the cursor again, so it re-enters at its first entry. (The write-set
+				// side is the current one here and is stepped below.)
+				self.snapshot_iter.seek_first()?;
+			} else if !self.ws_valid() {
 				self.seek_ws_first();
 			} else if self.current_source == CurrentSource::Snapshot {
 				self.advance_ws();
@@ -1338,7 +1343,12 @@ impl LSMIterator for TransactionRangeIterator<'_> {
 			self.direction = MergeDirection::Backward;
 			self.is_key_equal = false;
 
-			if !self.snapshot_iter.valid() || !self.ws_valid() {
+			if !self.snapshot_iter.valid() {
+				// The snapshot side ran off its high end: all it holds lies behind
+				// the cursor, so it re-enters at its last entry. (The write-set side
+				// is the current one here and is stepped below.)
+				self.snapshot_iter.seek_last()?;
+			} else if !self.ws_valid() {
 				self.seek_ws_last();
 			} else if self.current_source == CurrentSource::Snapshot {
 				self.advance_ws();
@@ -1987,7 +1997,11 @@ impl<'a> TransactionHistoryIterator<'a> {
 			self.direction = MergeDirection::Forward;
 			self.is_key_equal = false;
 
-			if !self.inner.valid() || !self.ws_valid() {
+			if !self.inner.valid() {
+				// The snapshot side ran off its low end: it re-enters at its first
+				// entry. (The write-set side is the current one and is stepped below.)
+				self.inner.seek_first()?;
+			} else if !self.ws_valid() {
 				self.seek_ws_first();
 			} else if self.current_source == CurrentSource::Snapshot {
 				self.advance_ws();
@@ -2039,7 +2053,11 @@ impl<'a> TransactionHistoryIterator<'a> {
 			self.direction = MergeDirection::Backward;
 			self.is_key_equal = false;
 
-			if !self.inner.valid() || !self.ws_valid() {
+			if !self.inner.valid() {
+				// The snapshot side ran off its high end: it re-enters at its last
+				// entry. (The write-set side is the current one and is stepped below.)
+				self.inner.seek_last()?;
+			} else if !self.ws_valid() {
 				self.seek_ws_last();
 			} else if self.current_source == CurrentSource::Snapshot {
 				self.advance_ws();
